@@ -738,9 +738,12 @@ class Interp:
                 na = len(self.assume)
                 self.assume.append(("range", ("idx", lid), desc[2], desc[3]) if desc[0] == "range"
                                    else ("elemof", ("elem", lid), desc[2]))
-                self.inline_closure(args[1], [desc_var(desc)], pev, site)
+                qr = self.inline_closure(args[1], [desc_var(desc)], pev, site)
                 del self.assume[na:]
                 ev.append(("loop", desc, pev))
+                if self.ctx.collect_asserts and name in ("any", "all") and not has_effect(pev) and isinstance(qr, tuple):
+                    # a pure predicate: `!any(p)` / `all(p)` state p == 0 / p == 1 for every element (see assume_eq)
+                    return ("quant", name, desc, qr, full)
             except Undecided:
                 pass
             return ("call", full, tuple(args), ())
@@ -1146,6 +1149,9 @@ class Interp:
         if isinstance(s0, tuple) and s0[0] == "discr" and isinstance(s0[1], tuple) and s0[1] and val == 0 \
                 and s0[1][0] in ("allok", "okif"):
             self.assume_ok(s0[1])
+            return
+        if isinstance(s0, tuple) and s0 and s0[0] == "quant" and ((s0[1] == "any" and val == 0) or (s0[1] == "all" and val == 1)):
+            self.assume.append(("forall", s0[2], s0[3], val))
             return
         self.assume.append(("cond", sc, val))
 
@@ -1981,6 +1987,20 @@ def evalv(e, env, facts):
         return evalc(("bin", e[1], C(a), C(b)))
     if k == "ovf":
         return evalv(e[1], env, facts)
+    if k == "un" and len(e) == 3:
+        v = evalv(e[2], env, facts)
+        if not isinstance(v, int):
+            return None
+        if e[1] == "Neg":
+            return -v
+        if e[1] == "Not" and v in (0, 1):
+            return 1 - v
+        return None
+    if k == "call" and re.search(r"(^|::)saturating_sub$", e[1].split("::<")[0]) and len(e[2]) == 2:
+        vs = [evalv(x, env, facts) for x in e[2]]
+        if not all(isinstance(x, int) for x in vs) or min(vs) < 0:
+            return None         # unsigned operands only (the signed form clamps at the type's minimum)
+        return max(0, vs[0] - vs[1])
     if k == "okval":
         v = evalv(e[1], env, facts)
         if isinstance(v, tuple) and v[0] == "agg" and v[2] in ("Some", "Ok") and v[3]:
